@@ -1,6 +1,6 @@
 (* C28 — rate limiting counts correctly under concurrent requests.
    Statements only; every proof is [exact <lemma from Proofs/RrlConcP.v>]. *)
-From QV Require Import Base.Res Base.Octets Model.Rrl Model.RrlConc Proofs.RrlP Proofs.RrlConcP.
+From QV Require Import Base.Res Base.Octets Model.Rrl Model.RrlConc Model.RrlConcT Proofs.RrlP Proofs.RrlConcP Proofs.RrlConcTP.
 Local Open Scope N_scope.
 
 (* MAIN: ANY number of threads (one entry of [bursts] per thread: how many requests of the
@@ -30,6 +30,27 @@ Theorem c28_exact_fresh : forall p k lo hi e bursts sched,
   let cap := rate_of p (k_category k) * p_window p in
   N.of_nat (c_sent s') = N.min n cap /\ N.of_nat (c_limited s') = n - N.min n cap.
 Proof. exact conc_exact_fresh. Qed.
+
+(* Table level (Model/RrlConcT.v): the whole `Vec<Mutex<Entry>>`, ONE LOCK PER BUCKET, threads of
+   many streams (each thread its own key; Acquire waits only for its own bucket's lock), any
+   schedule, every hash function: if no thread of another stream shares stream k's bucket, then
+   once k's threads are done exactly min(n_k, tokens) of k's responses were sent — threads
+   working on other buckets cannot disturb the count. *)
+Theorem c28_table_exact : forall (hkey : key -> N) p k lo hi t work sched,
+  wf_params p -> cell_ok p k hi (t_get t (slot hkey t k)) -> hi - lo < nanos_per_sec ->
+  Forall (fun l => lo <= label_now l <= hi) sched ->
+  (forall w, In w work -> fst w <> k -> slot hkey t (fst w) <> slot hkey t k) ->
+  let s' := trun hkey p (tinit t work) sched in
+  all_done (proj hkey k s') = true ->
+  let n := N.of_nat (list_sum (bursts_of k work)) in
+  let tokens := avail p k (t_get t (slot hkey t k)) in
+  N.of_nat (ts_sent s' k) = N.min n tokens /\ N.of_nat (ts_limited s' k) = n - N.min n tokens.
+Proof. exact table_exact. Qed.
+
+(* what stream k sees of the table-level system is the single-bucket system, step for step *)
+Theorem c28_table_projection : forall (hkey : key -> N) p k sched s, separated hkey k s ->
+  proj hkey k (trun hkey p s sched) = crun p k (proj hkey k s) sched.
+Proof. exact trun_proj. Qed.
 
 (* The inductive invariant behind it (mutual exclusion, reads are current, every sent
    response took one token, limited only when empty, nothing pending is forgotten) holds
@@ -85,6 +106,8 @@ Proof. exact conc_example. Qed.
 
 Print Assumptions c28_exact.
 Print Assumptions c28_exact_fresh.
+Print Assumptions c28_table_exact.
+Print Assumptions c28_table_projection.
 Print Assumptions c28_invariant_init.
 Print Assumptions c28_invariant_step.
 Print Assumptions c28_progress.
